@@ -200,5 +200,37 @@ def main():
             shutil.rmtree(f"{ROOT}/t{i}", ignore_errors=True); shutil.rmtree(f"{ROOT}/c{i}", ignore_errors=True)
 
 
+def summary(path):
+    """markdown table of a results file, written between <!-- mutants:begin --> and <!-- mutants:end --> in DESIGN.md"""
+    import collections
+    total = sum(1 for _ in open(os.path.join(os.path.dirname(path), "mutants.jsonl"))) if os.path.exists(os.path.join(os.path.dirname(path), "mutants.jsonl")) else None
+    st, by, how, und = collections.Counter(), collections.Counter(), collections.Counter(), []
+    for l in open(path):
+        r = json.loads(l); st[r["status"]] += 1
+        if r["status"] == "detected":
+            by[r["by"]] += 1; how[r.get("how", "?")] += 1
+        if r["status"] == "undetected":
+            und.append(r)
+    n = sum(st.values())
+    rows = ["| mutants generated | %s |" % (total if total is not None else "?"), "| evaluated so far | %d |" % n,
+            "| do not compile | %d |" % st["nocompile"], "| noticed by the 276 tests (or loop for ever in them) | %d |" % st["killed-by-tests"],
+            "| pass the tests and are **reported by a check** | %d (%s) |" % (st["detected"], ", ".join("%s %d" % kv for kv in sorted(by.items()))),
+            "| … of which by an oracle failure on a concrete input / a model-implementation disagreement / a broken obligation | %d / %d / %d |"
+            % (how["oracle-failure"], how["model-impl-disagreement"], how["obligation-broken"]),
+            "| pass the tests and no check run on them reports them | %d |" % st["undetected"]]
+    files = collections.Counter(r["file"] for r in und)
+    text = "| | |\n|---|---|\n" + "\n".join(rows) + "\n\nSurvivors by file: " + ", ".join("`%s` %d" % kv for kv in files.most_common()) + "."
+    dp = os.path.join(VERIF, "DESIGN.md")
+    d = open(dp).read()
+    b, e = "<!-- mutants:begin -->", "<!-- mutants:end -->"
+    if b in d and e in d:
+        d = d[: d.index(b) + len(b)] + "\n" + text + "\n" + d[d.index(e):]
+        open(dp, "w").write(d)
+    print(text)
+
+
 if __name__ == "__main__":
-    main()
+    if len(sys.argv) > 2 and sys.argv[1] == "summary":
+        summary(sys.argv[2])
+    else:
+        main()
